@@ -199,7 +199,9 @@ def check(prop, tier, only_key=None):
         gr = props.G_PROPS[prop](tier)
         ginst = gr['instances']
         gsamples = gr.get('samples', [])
-        name, got, floor = gr.get('floor', (None, 0, 0))
+        for n_ in gr.get('notes', []):
+            print(f'NOTE: {n_}')
+        name, got, floor = gr.get('floor') or (None, 0, 0)
         if name and got < floor:
             print(f'check {prop}: generator lint `{name}` matched {got} sites, below the confirmed floor {floor}: anchors lost, no verdict')
             return 2
